@@ -95,6 +95,16 @@ type Outer struct{ R Rec }
 type cSpec struct {
 	Recv string `json:"recv"` // how the struct is bound
 	Op   string `json:"op"`   // name in cOps
+	// Site: "" = the call is an expression statement; "defer-func" = the call is
+	// deferred inside a script function; "defer-top" = deferred at the top level.
+	// A deferred call's results are dropped, its arguments are not: the method must
+	// be called with exactly the supplied arguments (spreading included) all the same.
+	Site string `json:"site,omitempty"`
+}
+
+// deferrable: ops that consist of one method call
+func (o cOp) deferrable() bool {
+	return !strings.Contains(o.Script, "\n") && strings.HasPrefix(o.Script, "R.") && strings.HasSuffix(o.Script, ")") && !strings.HasPrefix(o.Script, "[")
 }
 
 // receivers: expression that denotes the struct in the script
@@ -191,11 +201,22 @@ func (c cSpec) recvExpr() string {
 }
 
 func (c cSpec) script() string {
-	return strings.Replace(cOpByName[c.Op].Script, "R.", c.recvExpr()+".", -1)
+	call := strings.Replace(cOpByName[c.Op].Script, "R.", c.recvExpr()+".", -1)
+	switch c.Site {
+	case "defer-func":
+		return "func dq() {\n\tdefer " + call + "\n}\ndq()\n0"
+	case "defer-top":
+		return "defer " + call + "\n0"
+	}
+	return call
 }
 
 func (c cSpec) caseText() string {
-	return fmt.Sprintf("Rec bound as %s :: %s", c.Recv, strings.Replace(c.script(), "\n", "; ", -1))
+	site := ""
+	if c.Site != "" {
+		site = " (" + c.Site + ")"
+	}
+	return fmt.Sprintf("Rec bound as %s%s :: %s", c.Recv, site, strings.Replace(c.script(), "\n", "; ", -1))
 }
 
 func newRec(l *Log) Rec {
@@ -308,6 +329,9 @@ func evalC(c cSpec) verdict {
 	}
 	if err != nil {
 		return fail("error", fmt.Sprintf("the script failed: %v (Go itself yields %s)", err, describeIface(want)))
+	}
+	if c.Site != "" {
+		want = int64(0) // the results of a deferred call are dropped; the script's value is the literal after it
 	}
 	if !sameIface(val, want, false) {
 		return fail("result", fmt.Sprintf("the script yields %s, Go itself yields %s", describeIface(val), describeIface(want)))
